@@ -13,11 +13,11 @@ from sim import env, kernel   # noqa: F401  (env installs the seams and imports 
 from sim.harness import Check, Violation
 
 from frappy.core import Attached, FloatRange, IntRange, Module, Parameter, Readable, nopoll
-from frappy.errors import CommunicationFailedError, HardwareError, SECoPError, \
-    SilentCommunicationFailedError
+from frappy.errors import CommunicationFailedError, HardwareError, NotImplementedSECoPError, SECoPError, \
+    SilentCommunicationFailedError, TimeoutSECoPError
 
 EPS = 0.01
-OUTCOMES = ('ok', 'secop', 'silent', 'exc', 'exc2', 'comfail')
+OUTCOMES = ('ok', 'secop', 'silent', 'exc', 'exc2', 'timeout', 'notimpl', 'comfail')
 
 
 class OddError(Exception):
@@ -58,6 +58,10 @@ def make_class(idx, spec, rec):
             raise ZeroDivisionError(f'bug in {fname}')
         if outcome == 'exc2':
             raise OddError(fname, k)
+        if outcome == 'timeout':
+            raise TimeoutSECoPError(f'{fname} took too long')
+        if outcome == 'notimpl':
+            raise NotImplementedSECoPError(f'{fname} not implemented for this device')
         if outcome == 'comfail':
             raise CommunicationFailedError(f'no connection {fname}')
         return k
